@@ -10,6 +10,11 @@ CONSTANTS
   ValDelays <- NoDelay
   FloorWins = FALSE
   SelfRefReanchors = TRUE
+  Ceil = 43200
+  Jumps <- NoJumps
+  RealTime = TRUE
+  CeilOnCut = TRUE
+  CeilOnStore = TRUE
 INIT Init
 NEXT Next
 INVARIANTS TypeOK FollowsParent
